@@ -25,34 +25,6 @@ theorem indexOf_mem (oids : List Bytes) (p : Bytes) (h : p ∈ oids) :
       obtain ⟨j, h1, h2, h3⟩ := ih hp
       exact ⟨j + 1, by simp [hx, h1], by simp; omega, by simpa using h3⟩
 
-theorem slot_mem (oids ps : List Bytes) (i : Nat) (p : Bytes) (hp : ps[i]? = some p) (hm : p ∈ oids) :
-    ∃ j, slot oids ps i = j ∧ j < oids.length ∧ oids[j]? = some p := by
-  obtain ⟨j, h1, h2, h3⟩ := indexOf_mem oids p hm
-  exact ⟨j, by simp [slot, hp, h1], h2, h3⟩
-
-theorem roundTripParents_closed (es : List (Bytes × List Bytes)) (i : Nat)
-    (e : Bytes × List Bytes) (hn : es.length < MISSING) (hi : es[i]? = some e)
-    (h2 : e.2.length ≤ 2) (hin : ∀ p ∈ e.2, p ∈ es.map (·.1)) :
-    roundTripParents es i = some (.ok e.2) := by
-  unfold roundTripParents
-  rw [hi]
-  simp only
-  have hlen : (es.map (·.1)).length = es.length := by simp
-  match hps : e.2, h2, hin with
-  | [], _, _ =>
-    simp [encodeParents, decodeParents]
-  | [a], _, hin =>
-    obtain ⟨j, h1, hj, h3⟩ := slot_mem (es.map (·.1)) [a] 0 a rfl (hin a (by simp))
-    have : j < MISSING := by omega
-    simp [encodeParents, decodeParents, h1, this, h3]
-  | [a, b], _, hin =>
-    obtain ⟨j, h1, hj, h3⟩ := slot_mem (es.map (·.1)) [a, b] 0 a rfl (hin a (by simp))
-    obtain ⟨k, k1, hk, k3⟩ := slot_mem (es.map (·.1)) [a, b] 1 b rfl (hin b (by simp))
-    have : j < MISSING := by omega
-    have : k < MISSING := by omega
-    simp [encodeParents, decodeParents, *]
-  | _ :: _ :: _ :: _, h2, _ => simp at h2
-
 theorem parseExtraEdges_spec (oids : List Bytes) : ∀ (init : List Nat) (last : Nat) (junk : List Nat),
     (∀ p ∈ init, p < oids.length ∧ p < LAST) → last < oids.length →
     parseExtraEdges oids (init ++ [last + LAST] ++ junk) = (init ++ [last]).filterMap (oids[·]?) := by
@@ -90,6 +62,385 @@ theorem decodeParents_edges (oids : List Bytes) (pre init junk : List Nat) (p1 l
   simp only [a, if_true, e, b, if_false, c, d, List.drop_left, List.filterMap_cons]
   rw [parseExtraEdges_spec oids init last junk hin hl]
   rfl
+
+
+theorem indexOf_some : ∀ (oids : List Bytes) (p : Bytes) (j : Nat),
+    indexOf oids p = some j → oids[j]? = some p := by
+  intro oids
+  induction oids with
+  | nil => intro p j h; simp [indexOf] at h
+  | cons x xs ih =>
+    intro p j h
+    unfold indexOf at h
+    by_cases hx : x = p
+    · rw [if_pos hx] at h; cases h; simp [hx]
+    · rw [if_neg hx] at h
+      cases hi : indexOf xs p with
+      | none => simp [hi] at h
+      | some k => simp [hi] at h; subst h; simpa using ih p k hi
+
+theorem parentPos_ok {oids : List Bytes} {p : Bytes} {j : Nat} (h : parentPos oids p = .ok j) :
+    oids[j]? = some p ∧ j < oids.length ∧ p ∈ oids := by
+  unfold parentPos at h
+  cases hi : indexOf oids p with
+  | none => simp [hi] at h
+  | some k =>
+    simp [hi] at h; subst h
+    have := indexOf_some oids p k hi
+    obtain ⟨hk, he⟩ := List.getElem?_eq_some_iff.mp this
+    exact ⟨this, hk, he ▸ List.getElem_mem hk⟩
+
+theorem parentPos_of_mem {oids : List Bytes} {p : Bytes} (h : p ∈ oids) : ∃ j, parentPos oids p = .ok j := by
+  obtain ⟨j, h1, _, _⟩ := indexOf_mem oids p h
+  exact ⟨j, by simp [parentPos, h1]⟩
+
+theorem mapM_parentPos_ok (oids : List Bytes) : ∀ (rest : List Bytes) (r : List Nat),
+    rest.mapM (parentPos oids) = .ok r →
+    r.filterMap (oids[·]?) = rest ∧ (∀ x ∈ r, x < oids.length) ∧ r.length = rest.length ∧ ∀ p ∈ rest, p ∈ oids := by
+  intro rest
+  induction rest with
+  | nil => intro r h; simp [List.mapM_nil, pure, Except.pure] at h; subst h; simp
+  | cons a as ih =>
+    intro r h
+    rw [List.mapM_cons] at h
+    cases ha : parentPos oids a with
+    | error e => simp [ha, bind, Except.bind] at h
+    | ok j =>
+      cases hr : as.mapM (parentPos oids) with
+      | error e => simp [ha, hr, bind, Except.bind] at h
+      | ok r' =>
+        simp [ha, hr, bind, Except.bind, pure, Except.pure] at h
+        subst h
+        obtain ⟨h1, h2, h3, h4⟩ := ih r' hr
+        obtain ⟨g1, g2, g3⟩ := parentPos_ok ha
+        refine ⟨by simp [g1, h1], ?_, by simp [h3], ?_⟩
+        · intro x hx; cases hx with
+          | head => exact g2
+          | tail _ hx => exact h2 x hx
+        · intro p hp; cases hp with
+          | head => exact g3
+          | tail _ hp => exact h4 p hp
+
+theorem mapM_parentPos_of_mem (oids : List Bytes) : ∀ (rest : List Bytes),
+    (∀ p ∈ rest, p ∈ oids) → ∃ r, rest.mapM (parentPos oids) = .ok r := by
+  intro rest
+  induction rest with
+  | nil => intro _; exact ⟨[], rfl⟩
+  | cons a as ih =>
+    intro h
+    obtain ⟨j, hj⟩ := parentPos_of_mem (h a (by simp))
+    obtain ⟨r, hr⟩ := ih (fun p hp => h p (by simp [hp]))
+    exact ⟨j :: r, by rw [List.mapM_cons]; simp [hj, hr, bind, Except.bind, pure, Except.pure]⟩
+
+theorem flagLast_spec : ∀ (r : List Nat), r ≠ [] →
+    ∃ init last, r = init ++ [last] ∧ flagLast r = init ++ [last + LAST] := by
+  intro r
+  induction r with
+  | nil => intro h; exact absurd rfl h
+  | cons x xs ih =>
+    intro _
+    cases xs with
+    | nil => exact ⟨[], x, rfl, rfl⟩
+    | cons y ys =>
+      obtain ⟨init, last, h1, h2⟩ := ih (by simp)
+      exact ⟨x :: init, last, by simp [h1], by simp [flagLast, h2]⟩
+
+
+/-- the reader undoes the writer's encoding of ONE entry; for three or more parents the complete edge list must
+contain this entry's words at the offset the writer recorded -/
+theorem decode_encodeParents (oids : List Bytes) (hn : oids.length < MISSING) (ps : List Bytes) (m : Nat)
+    (p1 p2 : Nat) (ew : List Nat) (h : encodeParents oids ps m = .ok (p1, p2, ew)) (E : Option (List Nat))
+    (hE : ps.length > 2 → ∃ pre post, E = some (pre ++ (ew ++ post)) ∧ pre.length = m) :
+    decodeParents oids E p1 p2 = .ok ps := by
+  have hME : MISSING < EXTRA := by decide
+  have hnE : ¬ (EXTRA ≤ MISSING) := by omega
+  cases ps with
+  | nil =>
+    simp only [encodeParents, Except.ok.injEq, Prod.mk.injEq] at h
+    obtain ⟨rfl, rfl, _⟩ := h
+    simp [decodeParents, hnE]
+  | cons a t =>
+    cases t with
+    | nil =>
+      simp only [encodeParents] at h
+      cases ha : parentPos oids a with
+      | error e => simp [ha] at h
+      | ok x =>
+        simp only [ha, Except.ok.injEq, Prod.mk.injEq] at h
+        obtain ⟨rfl, rfl, _⟩ := h
+        obtain ⟨g1, g2, _⟩ := parentPos_ok ha
+        have : x < MISSING := by omega
+        simp [decodeParents, this, g1, hnE]
+    | cons b t2 =>
+      cases t2 with
+      | nil =>
+        simp only [encodeParents] at h
+        cases ha : parentPos oids a with
+        | error e => simp [ha] at h
+        | ok x =>
+          cases hb : parentPos oids b with
+          | error e => simp [ha, hb] at h
+          | ok y =>
+            simp only [ha, hb, Except.ok.injEq, Prod.mk.injEq] at h
+            obtain ⟨rfl, rfl, _⟩ := h
+            obtain ⟨g1, g2, _⟩ := parentPos_ok ha
+            obtain ⟨k1, k2, _⟩ := parentPos_ok hb
+            have hx : x < MISSING := by omega
+            have hy : y < MISSING := by omega
+            unfold decodeParents
+            simp only [hx, hy, if_true, g1, k1]
+            rfl
+      | cons c rest =>
+        simp only [encodeParents] at h
+        cases ha : parentPos oids a with
+        | error e => simp [ha] at h
+        | ok x =>
+          cases hr : (b :: c :: rest).mapM (parentPos oids) with
+          | error e => simp [ha, hr] at h
+          | ok r =>
+            simp only [ha, hr, Except.ok.injEq, Prod.mk.injEq] at h
+            obtain ⟨rfl, rfl, rfl⟩ := h
+            obtain ⟨g1, g2, _⟩ := parentPos_ok ha
+            obtain ⟨h1, h2, h3, _⟩ := mapM_parentPos_ok oids _ r hr
+            have hne : r ≠ [] := by intro h0; rw [h0] at h3; simp at h3
+            obtain ⟨init, last, e1, e2⟩ := flagLast_spec r hne
+            obtain ⟨pre, post, rfl, hpre⟩ := hE (by simp)
+            have hL : MISSING < LAST := by decide
+            have hin : ∀ p ∈ init, p < oids.length ∧ p < LAST := by
+              intro p hp
+              have := h2 p (by rw [e1]; simp [hp])
+              exact ⟨this, by omega⟩
+            have hl : last < oids.length := h2 last (by rw [e1]; simp)
+            rw [e2, ← hpre]
+            have := decodeParents_edges oids pre init post x last g2 hn hin hl
+            simp only [List.append_assoc] at this ⊢
+            rw [this]
+            have hx : oids[x]? = some a := g1
+            simp only [List.filterMap_cons, hx]
+            rw [← e1, h1]
+
+/-- where entry `i` ends up in the output of the writer's loop -/
+theorem encodeAll_spec (oids : List Bytes) : ∀ (pss : List (List Bytes)) (n : Nat)
+    (slots : List (Nat × Nat)) (edges : List Nat), encodeAll oids pss n = .ok (slots, edges) →
+    ∀ (i : Nat) (ps : List Bytes), pss[i]? = some ps →
+      ∃ p1 p2 ew pre post, slots[i]? = some (p1, p2) ∧ encodeParents oids ps (n + pre.length) = .ok (p1, p2, ew) ∧
+        edges = pre ++ (ew ++ post) := by
+  intro pss
+  induction pss with
+  | nil => intro n slots edges _ i ps hi; simp at hi
+  | cons q more ih =>
+    intro n slots edges h i ps hi
+    rw [encodeAll] at h
+    cases hq : encodeParents oids q n with
+    | error e => simp [hq] at h
+    | ok t =>
+      obtain ⟨p1, p2, ew⟩ := t
+      cases hm : encodeAll oids more (n + ew.length) with
+      | error e => simp [hq, hm] at h
+      | ok t2 =>
+        obtain ⟨sl, ed⟩ := t2
+        simp only [hq, hm, Except.ok.injEq, Prod.mk.injEq] at h
+        obtain ⟨rfl, rfl⟩ := h
+        cases i with
+        | zero =>
+          simp at hi; subst hi
+          exact ⟨p1, p2, ew, [], ed, by simp, by simpa using hq, by simp⟩
+        | succ i =>
+          simp at hi
+          obtain ⟨a, b, w, pre, post, g1, g2, g3⟩ := ih (n + ew.length) sl ed hm i ps hi
+          refine ⟨a, b, w, ew ++ pre, post, by simpa using g1, ?_, by simp [g3]⟩
+          rw [← g2]; congr 1; simp; omega
+
+theorem encodeParents_mem {oids : List Bytes} {ps : List Bytes} {m : Nat} {t : Nat × Nat × List Nat}
+    (h : encodeParents oids ps m = .ok t) : ∀ p ∈ ps, p ∈ oids := by
+  match ps, h with
+  | [], _ => intro p hp; cases hp
+  | [a], h =>
+    simp only [encodeParents] at h
+    cases ha : parentPos oids a with
+    | error e => simp [ha] at h
+    | ok x => intro p hp; simp at hp; subst hp; exact (parentPos_ok ha).2.2
+  | [a, b], h =>
+    simp only [encodeParents] at h
+    cases ha : parentPos oids a with
+    | error e => simp [ha] at h
+    | ok x =>
+      cases hb : parentPos oids b with
+      | error e => simp [ha, hb] at h
+      | ok y =>
+        intro p hp; simp at hp
+        rcases hp with rfl | rfl
+        · exact (parentPos_ok ha).2.2
+        · exact (parentPos_ok hb).2.2
+  | a :: b :: c :: rest, h =>
+    simp only [encodeParents] at h
+    cases ha : parentPos oids a with
+    | error e => simp [ha] at h
+    | ok x =>
+      cases hr : (b :: c :: rest).mapM (parentPos oids) with
+      | error e => simp [ha, hr] at h
+      | ok r =>
+        intro p hp
+        cases hp with
+        | head => exact (parentPos_ok ha).2.2
+        | tail _ hp => exact (mapM_parentPos_ok oids _ r hr).2.2.2 p hp
+
+theorem encodeParents_of_mem {oids : List Bytes} (ps : List Bytes) (m : Nat) (h : ∀ p ∈ ps, p ∈ oids) :
+    ∃ t, encodeParents oids ps m = .ok t := by
+  match ps, h with
+  | [], _ => exact ⟨_, rfl⟩
+  | [a], h =>
+    obtain ⟨x, hx⟩ := parentPos_of_mem (h a (by simp))
+    exact ⟨(x, MISSING, []), by simp [encodeParents, hx]⟩
+  | [a, b], h =>
+    obtain ⟨x, hx⟩ := parentPos_of_mem (h a (by simp))
+    obtain ⟨y, hy⟩ := parentPos_of_mem (h b (by simp))
+    exact ⟨(x, y, []), by simp [encodeParents, hx, hy]⟩
+  | a :: b :: c :: rest, h =>
+    obtain ⟨x, hx⟩ := parentPos_of_mem (h a (by simp))
+    obtain ⟨r, hr⟩ := mapM_parentPos_of_mem oids (b :: c :: rest) (fun p hp => h p (by simp [hp]))
+    exact ⟨(x, EXTRA + m, flagLast r), by simp only [encodeParents, hx, hr]⟩
+
+theorem encodeAll_mem (oids : List Bytes) : ∀ (pss : List (List Bytes)) (n : Nat) (t : List (Nat × Nat) × List Nat),
+    encodeAll oids pss n = .ok t → ∀ ps ∈ pss, ∀ p ∈ ps, p ∈ oids := by
+  intro pss
+  induction pss with
+  | nil => intro n t _ ps hps; cases hps
+  | cons q more ih =>
+    intro n t h ps hps
+    rw [encodeAll] at h
+    cases hq : encodeParents oids q n with
+    | error e => simp [hq] at h
+    | ok t1 =>
+      obtain ⟨p1, p2, ew⟩ := t1
+      cases hm : encodeAll oids more (n + ew.length) with
+      | error e => simp [hq, hm] at h
+      | ok t2 =>
+        cases hps with
+        | head => exact encodeParents_mem hq
+        | tail _ hps => exact ih _ _ hm ps hps
+
+theorem encodeAll_of_mem (oids : List Bytes) : ∀ (pss : List (List Bytes)) (n : Nat),
+    (∀ ps ∈ pss, ∀ p ∈ ps, p ∈ oids) → ∃ t, encodeAll oids pss n = .ok t := by
+  intro pss
+  induction pss with
+  | nil => intro n _; exact ⟨_, rfl⟩
+  | cons q more ih =>
+    intro n h
+    obtain ⟨⟨p1, p2, ew⟩, hq⟩ := encodeParents_of_mem (oids := oids) q n (h q (by simp))
+    obtain ⟨⟨sl, ed⟩, hm⟩ := ih (n + ew.length) (fun ps hps => h ps (by simp [hps]))
+    exact ⟨((p1, p2) :: sl, ew ++ ed), by rw [encodeAll]; simp only [hq, hm]⟩
+
+theorem encodeAll_length (oids : List Bytes) : ∀ (pss : List (List Bytes)) (n : Nat)
+    (slots : List (Nat × Nat)) (edges : List Nat), encodeAll oids pss n = .ok (slots, edges) →
+    slots.length = pss.length := by
+  intro pss
+  induction pss with
+  | nil => intro n slots edges h; simp [encodeAll] at h; simp [h.1]
+  | cons q more ih =>
+    intro n slots edges h
+    rw [encodeAll] at h
+    cases hq : encodeParents oids q n with
+    | error e => simp [hq] at h
+    | ok t =>
+      obtain ⟨p1, p2, ew⟩ := t
+      cases hm : encodeAll oids more (n + ew.length) with
+      | error e => simp [hq, hm] at h
+      | ok t2 =>
+        obtain ⟨sl, ed⟩ := t2
+        simp only [hq, hm, Except.ok.injEq, Prod.mk.injEq] at h
+        obtain ⟨rfl, rfl⟩ := h
+        simp [ih _ _ _ hm]
+
+
+theorem closedB_iff (es : List (Bytes × List Bytes)) : closedB es = true ↔ Closed es := by
+  simp [closedB, Closed]
+
+theorem roundTrip_closed (es : List (Bytes × List Bytes)) (i : Nat) (e : Bytes × List Bytes)
+    (hn : es.length < MISSING) (hc : Closed es) (hi : es[i]? = some e) :
+    roundTripParents es i = some (.ok e.2) := by
+  have hall : ∀ ps ∈ es.map (·.2), ∀ p ∈ ps, p ∈ es.map (·.1) := by
+    intro ps hps p hp
+    obtain ⟨e', he', rfl⟩ := List.mem_map.mp hps
+    exact hc e' he' p hp
+  obtain ⟨⟨slots, edges⟩, hok⟩ := encodeAll_of_mem (es.map (·.1)) (es.map (·.2)) 0 hall
+  have hi2 : (es.map (·.2))[i]? = some e.2 := by simp [hi]
+  obtain ⟨p1, p2, ew, pre, post, g1, g2, g3⟩ := encodeAll_spec _ _ 0 slots edges hok i e.2 hi2
+  unfold roundTripParents
+  simp only [hok, g1]
+  congr 1
+  apply decode_encodeParents (es.map (·.1)) (by simpa using hn) e.2 (0 + pre.length) p1 p2 ew g2
+  intro hlen
+  -- three or more parents: this entry contributed at least one edge word, so the EDGE chunk exists
+  have hew : ew ≠ [] := by
+    match hps : e.2, hlen, g2 with
+    | a :: b :: c :: rest, _, g2 =>
+      simp only [encodeParents] at g2
+      cases ha : parentPos (es.map (·.1)) a with
+      | error _ => simp [ha] at g2
+      | ok x =>
+        cases hr : (b :: c :: rest).mapM (parentPos (es.map (·.1))) with
+        | error _ => simp [ha, hr] at g2
+        | ok r =>
+          simp only [ha, hr, Except.ok.injEq, Prod.mk.injEq] at g2
+          obtain ⟨_, _, rfl⟩ := g2
+          have h3 := (mapM_parentPos_ok _ _ r hr).2.2.1
+          have hne : r ≠ [] := by intro h0; rw [h0] at h3; simp at h3
+          obtain ⟨init, last, _, e2⟩ := flagLast_spec r hne
+          rw [e2]; simp
+  have hne : edges.isEmpty = false := by
+    rw [g3]; cases pre <;> cases ew <;> simp_all
+  refine ⟨pre, post, ?_, by simp⟩
+  rw [g3] at hne
+  rw [g3, hne]
+  rfl
+
+theorem roundTrip_open (es : List (Bytes × List Bytes)) (i : Nat) (hc : ¬ Closed es) :
+    roundTripParents es i = none := by
+  cases hok : encodeAll (es.map (·.1)) (es.map (·.2)) 0 with
+  | error _ => simp only [roundTripParents, hok]
+  | ok t =>
+    exfalso; apply hc
+    intro e he p hp
+    exact encodeAll_mem _ _ 0 t hok e.2 (List.mem_map.mpr ⟨e, he, rfl⟩) p hp
+
+
+theorem closeEntries_closed : ∀ (fuel : Nat) (es : List (Bytes × List Bytes)), es.length ≤ fuel →
+    closedB (closeEntries fuel es) = true := by
+  intro fuel
+  induction fuel with
+  | zero =>
+    intro es h
+    have : es = [] := List.length_eq_zero_iff.mp (by omega)
+    subst this; rfl
+  | succ fuel ih =>
+    intro es h
+    rw [closeEntries]
+    by_cases heq : (closeStep es).length = es.length
+    · rw [if_pos heq]
+      unfold closeStep at heq
+      have := List.length_filter_eq_length_iff.mp heq
+      unfold closedB
+      exact List.all_eq_true.mpr this
+    · rw [if_neg heq]
+      apply ih
+      have : (closeStep es).length ≤ es.length := by unfold closeStep; exact List.length_filter_le _ _
+      omega
+
+theorem closeEntries_sub : ∀ (fuel : Nat) (es : List (Bytes × List Bytes)),
+    ∀ e ∈ closeEntries fuel es, e ∈ es := by
+  intro fuel
+  induction fuel with
+  | zero => intro es e h; exact h
+  | succ fuel ih =>
+    intro es e h
+    rw [closeEntries] at h
+    by_cases heq : (closeStep es).length = es.length
+    · rw [if_pos heq] at h; exact h
+    · rw [if_neg heq] at h
+      have := ih (closeStep es) e h
+      unfold closeStep at this
+      exact (List.mem_filter.mp this).1
 
 end Dulwich.CommitGraphFmt
 
